@@ -8,6 +8,7 @@
   The theorems hold for EVERY history, every argument (also out-of-range ones: aborts are results too).
 -/
 import GoldilocksVerif.Lemmas.NttObj
+import GoldilocksVerif.Lemmas.BridgeNttExtend
 
 namespace GoldilocksVerif.C19
 open GoldilocksVerif.Model.Ntt
@@ -61,5 +62,56 @@ example : ∃ o, mkObj 8 1 = some o ∧
     (((Call.extendPol false (Array.replicate 8 0#64) #[1#64, 2#64, 3#64, 4#64] 8 4 1 3 1).run
         ((Call.extendPol false (Array.replicate 4 0#64) #[1#64, 2#64] 4 2 1 3 1).run o).1).1.rcache.map (·.1)) = some 4 := by
   refine ⟨(mkObj 8 1).get (by decide +kernel), by simp, ?_, ?_⟩ <;> decide +kernel
+
+/-! ### the model GENERATED from ntt_goldilocks.cpp / .hpp (see Props/C03.lean, DESIGN.NTTGEN.md) -/
+section generated
+open GoldilocksVerif.BridgeNtt Gen.NttGen GoldilocksVerif.NttSpec
+
+/-- object reuse on the generated functions: two states of one object that differ only in the cache an earlier `extendPol`
+    left behind (absent, built for this N, built for another N — each on its own heap, the input and output blocks holding the
+    same data) make the TRANSLATED `extendPol` deliver the same output block, field element for field element.  The
+    translated code frees and rebuilds a stale table (`r_N != N`), reuses a valid one, builds a missing one. -/
+theorem C19_generated_extendPol_ignores_cache (maxDomainSize extension : Nat) (o1 o2 : Obj)
+    (hb1 : mkObj maxDomainSize extension = some o1.base) (hb2 : o2.base = o1.base) (hwf1 : o1.wf) (hwf2 : o2.wf)
+    (hext : extension ≤ 1) (dn de : Nat) (hdn1 : 1 ≤ dn) (hn : 2 ^ dn ≤ maxDomainSize) (hne : dn ≤ de) (hde : de ≤ 30)
+    (fuel : Nat) (hf : 64 ≤ fuel)
+    (hp1 hp2 : Heap) (s1 s2 : NTT_Goldilocks) (hr1 : ObjRep hp1 s1 o1) (hr2 : ObjRep hp2 s2 o2)
+    (hi1 : ObjIn hp1 s1) (hi2 : ObjIn hp2 s2) (hd1 : ObjDisj s1) (hd2 : ObjDisj s2)
+    (Out In : Nat) (hO1 : Out < hp1.size) (hO2 : Out < hp2.size) (hI1 : In < hp1.size) (hI2 : In < hp2.size) (hOut0 : Out ≠ 0)
+    (hfO1 : ObjFrame s1 Out) (hfO2 : ObjFrame s2 Out) (hfI1 : ObjFrame s1 In) (hfI2 : ObjFrame s2 In)
+    (hsameIn : hp1.block In = hp2.block In)
+    (ncols : Nat) (nphase nblock : BitVec 64) (hnc : 1 ≤ ncols) (hbound : 2 ^ de * ncols * 8 < 2 ^ 64)
+    (hnb : clampBlock nblock.toNat ncols = 1)
+    (ho1 : 2 ^ de * ncols ≤ (hp1.block Out).size) (ho2 : 2 ^ de * ncols ≤ (hp2.block Out).size) :
+    ∃ h1 t1 h2 t2,
+      NTT_extendPol fuel hp1 s1 ⟨Out, 0⟩ ⟨In, 0⟩ (bv (2 ^ de)) (bv (2 ^ dn)) (bv ncols) Ptr.null nphase nblock = some (h1, t1) ∧
+      NTT_extendPol fuel hp2 s2 ⟨Out, 0⟩ ⟨In, 0⟩ (bv (2 ^ de)) (bv (2 ^ dn)) (bv ncols) Ptr.null nphase nblock = some (h2, t2) ∧
+      ∀ k c, k < 2 ^ de → c < ncols →
+        den ((h1.block Out).getD (k * ncols + c) 0#64) = den ((h2.block Out).getD (k * ncols + c) 0#64) := by
+  have hm : maxDomainSize ≠ 0 := by have := Nat.two_pow_pos dn; omega
+  have hO0 := mkObj_ok maxDomainSize extension o1.base hm hext hb1
+  have e1 : setCache o1.base o1.rcache = o1 := by cases o1; rfl
+  have e2 : setCache o1.base o2.rcache = o2 := by rw [← hb2]; cases o2; rfl
+  have hOk1 : ObjOk o1 (log2 maxDomainSize) := by
+    have := hO0.setCache o1.rcache (by rw [e1]; exact hwf1); rw [e1] at this; exact this
+  have hOk2 : ObjOk o2 (log2 maxDomainSize) := by
+    have := hO0.setCache o2.rcache (by rw [e2]; exact hwf2); rw [e2] at this; exact this
+  obtain ⟨hs1, hs2, _⟩ := BridgeNtt.mkObj_s_val maxDomainSize extension o1.base hm hb1
+  have hsb1 : o1.base.s = o1.s := rfl
+  have hsb2 : o2.s = o1.base.s := by rw [← hb2]; rfl
+  have hd : dn ≤ log2 maxDomainSize := (Nat.le_log2 hm).mpr hn
+  obtain ⟨h1, t1, out1, g1, b1, _, _, c1⟩ := extendPol_gen fuel hf hp1 s1 o1 _ hr1 hi1 hd1 hOk1 (by rw [← hsb1]; exact hs2) Out In
+    hO1 hI1 hOut0 hfO1 hfI1 dn de ncols hdn1 hne hde hd (by rw [← hsb1]; omega) hnc hbound nphase nblock hnb ho1
+  obtain ⟨h2, t2, out2, g2, b2, _, _, c2⟩ := extendPol_gen fuel hf hp2 s2 o2 _ hr2 hi2 hd2 hOk2 (by rw [hsb2]; exact hs2) Out In
+    hO2 hI2 hOut0 hfO2 hfI2 dn de ncols hdn1 hne hde hd (by rw [hsb2]; omega) hnc hbound nphase nblock hnb ho2
+  refine ⟨h1, t1, h2, t2, g1, g2, ?_⟩
+  intro k c hk hc
+  have a1 := c1 k c hk hc
+  have a2 := c2 k c hk hc
+  rw [← hsameIn] at a2
+  rw [b1, b2]
+  exact a1.trans a2.symm
+
+end generated
 
 end GoldilocksVerif.C19
